@@ -27,15 +27,28 @@ Section Spec.
   (* ... and User-Agent when the client's is not forwarded: the gateway's own four *)
   Definition own (h : string) : Prop := overwritten h \/ h = UA.
   Definition sent_h (h : string) : list string := getl h (o_headers o).
+  (* the value the gateway itself gives each of its four headers: the client's address as the
+     router determines it, the Host the client addressed, the gateway's User-Agent (twice) *)
+  Definition own_value (h : string) : option (list string) :=
+    if str_eqb h XFF then Some [r_ip r]
+    else if str_eqb h XFH then Some [r_host r]
+    else if str_eqb h UA then Some [r_ua r]
+    else if str_eqb h XFV then Some [r_ua r]
+    else None.
+  (* h is one of the gateway's own four AND carries the gateway's value *)
+  Definition own_ok (h : string) (vs : list string) : Prop := own_value h = Some vs.
+  Definition own_ok_b (h : string) (vs : list string) : bool :=
+    match own_value h with Some v => sl_eqb v vs | None => false end.
 
   (* "A backend receives a client header only if it is listed in the endpoint's input_headers
      (or '*' is listed) and, when the backend declares its own lists, in those too ... Apart
      from these, the backend sees only the gateway's own X-Forwarded-For, X-Forwarded-Host,
-     User-Agent and X-Forwarded-Via": every header the backend sees is one of the four, or an
-     allowed name carrying exactly what the client sent under it *)
+     User-Agent and X-Forwarded-Via": every header the backend sees is one of the four with the
+     value the gateway gives it, or an allowed name carrying exactly what the client sent under it
+     (so a client's X-Forwarded-Host / User-Agent value reaches a backend only through the lists) *)
   Definition headers_sound : Prop :=
     forall h, sent_h h <> [] ->
-      own h \/ (allowed_ep_h h /\ allowed_be_h h /\ sent_h h = client_h h).
+      own_ok h (sent_h h) \/ (allowed_ep_h h /\ allowed_be_h h /\ sent_h h = client_h h).
 
   (* "every parameter that is allowed and present is forwarded with its values unchanged"
      (under the canonical spelling of the name; the three names the gateway overwrites by
@@ -72,7 +85,7 @@ Section Spec.
 
   Definition headers_sound_b : bool :=
     forallb (fun kv => let h := fst kv in
-               is_nil (sent_h h) || own_b h ||
+               is_nil (sent_h h) || own_ok_b h (sent_h h) ||
                (allowed_ep_hb h && allowed_be_hb h && sl_eqb (sent_h h) (client_h h)))
             (o_headers o).
   Definition headers_complete_b : bool :=
@@ -107,7 +120,7 @@ Section SpecGql.
 
   Definition gql_headers_sound : Prop :=
     forall h, sent_h o h <> [] ->
-      own h \/ gql_own_hb h = true \/ (allowed_ep_h c h /\ allowed_be_h c h /\ sent_h o h = client_h r h).
+      own_ok r h (sent_h o h) \/ gql_own_hb h = true \/ (allowed_ep_h c h /\ allowed_be_h c h /\ sent_h o h = client_h r h).
   Definition gql_headers_complete : Prop :=
     forall h, allowed_ep_h c h -> allowed_be_h c h -> ~ overwritten (canon h) -> gql_own_hb (canon h) = false ->
       client_h r h <> [] -> sent_h o (canon h) = client_h r h.
@@ -124,7 +137,7 @@ Section SpecGql.
 
   Definition spec_gql_b : bool :=
     forallb (fun kv => let h := fst kv in
-               is_nil (sent_h o h) || own_b h || gql_own_hb h ||
+               is_nil (sent_h o h) || own_ok_b r h (sent_h o h) || gql_own_hb h ||
                (allowed_ep_hb c h && allowed_be_hb c h && sl_eqb (sent_h o h) (client_h r h)))
             (o_headers o) &&
     forallb (fun p => let h := canon (fst p) in
